@@ -153,14 +153,14 @@ def main():
         }],
         "checks": checks,
         "not_applicable": na,
-        "notes": "See DESIGN.md. Every check: exit 0 held / exit 1 with VIOLATION line / exit 2 tool error. known_findings.json lists recorded and fixed defects.",
+        "notes": "See DESIGN.md (section 13 = what was built). Every check: exit 0 held / exit 1 with VIOLATION line / exit 2 tool error. known_findings.json lists recorded (2) and fixed (11) defects. Beyond the 20 properties the specification covers six extension components (./check X01..X06, lib/ext.py: CharString index layer, preprocessing pipeline, task inputs and postprocessing, chat template, inference loader, line reader); they print EXT-VIOLATION, write evidence/ext/ and are not registered here. Hook commits 0328edf and d29d63d serve only those extensions.",
     }
     with open(os.path.join(VERIF, "MANIFEST.json"), "w") as f:
         json.dump(m, f, indent=1)
     print("MANIFEST.json: %d checks, %d not_applicable" % (len(checks), len(na)))
 
 
-HOOK_COMMITS = ["3613811", "f304319", "2211f72", "6668f70", "0328edf"]
+HOOK_COMMITS = ["3613811", "f304319", "2211f72", "6668f70", "0328edf", "d29d63d"]
 
 if __name__ == "__main__":
     main()
